@@ -913,6 +913,10 @@ func (w *w4) opResolve(id, seq int, op simrt.Op, rr *rand.Rand) {
 		env.Checksum = w5checksum(eff, append([]byte("p"), data...))
 	case 6:
 		env.SHA256 = strings.ToUpper(env.SHA256)
+	case 7, 8:
+		// the envelope's size field understates the object (its checksums are those of the object): a size
+		// limit is about the bytes that are returned, not about what the envelope claims
+		env.Size = int64(1 + rr.IntN(8))
 	}
 	value, _ := json.Marshal(env)
 	maxSize := int64(0)
